@@ -82,6 +82,7 @@ type Recorder struct {
 	Sel          []SelCall
 	Stats        []StatRec
 	Recov        []RepoWrite // recovery callbacks (Name/URL/At/Step used)
+	RecovDone    []RepoWrite // their completions: Err = result, Asked = state of the callback's context at that time
 	Metrics      []MetricRec
 	SrvErrors    []string // net/http server error log (recovered handler panics end up here)
 }
@@ -479,7 +480,19 @@ func BuildStack(s *Sim, p *Plan) (*Stack, error) {
 			rec.mu.Lock()
 			rec.Recov = append(rec.Recov, RepoWrite{Step: s.Steps(), At: s.Now(), Name: ep.Name, URL: ep.URL.String()})
 			rec.mu.Unlock()
-			return md.DiscoverEndpoint(ctx, ep)
+			err := md.DiscoverEndpoint(ctx, ep)
+			// how the re-discovery ended, and whether the context it was given had been cancelled by then
+			done := RepoWrite{Step: s.Steps(), At: s.Now(), Name: ep.Name, URL: ep.URL.String()}
+			if err != nil {
+				done.Err = err.Error()
+			}
+			if ctx.Err() != nil {
+				done.Asked = ctx.Err().Error()
+			}
+			rec.mu.Lock()
+			rec.RecovDone = append(rec.RecovDone, done)
+			rec.mu.Unlock()
+			return err
 		}))
 	} else {
 		rec := st.Rec
